@@ -2828,6 +2828,12 @@ impl<'a> Socket<'a> {
         }
         self.ack_delay_timer = AckDelayTimer::Idle;
 
+        // Every segment, including a zero-window probe or a keep-alive, carries our current
+        // acknowledgement number and window; remember what we advertised, since incoming
+        // segments are trimmed to that window.
+        self.remote_last_ack = repr.ack_number;
+        self.remote_last_win = repr.window_len;
+
         // Leave the rest of the state intact if sending a zero-window probe.
         if is_zero_window_probe {
             self.timer.rewind_zero_window_probe(cx.now());
@@ -2848,9 +2854,6 @@ impl<'a> Socket<'a> {
                 .remote_last_seq
                 .max(repr.seq_number + repr.segment_len());
         }
-        self.remote_last_ack = repr.ack_number;
-        self.remote_last_win = repr.window_len;
-
         if repr.segment_len() > 0 {
             self.rtte
                 .on_send(cx.now(), repr.seq_number + repr.segment_len());
